@@ -4,6 +4,8 @@ CONSTANTS
   Sizes = {}
   FlavourSets = {}
   Mode = "code"
+  Runs = 9
+  RememberIndex = FALSE
   Emit = FALSE
 INVARIANT TOldOrNew
 CHECK_DEADLOCK FALSE
